@@ -95,7 +95,12 @@ pub fn type_range(ty: &RType) -> (f64, f64) {
         RType::Single { min, max } => (min.map(|m| m.0 as f64).unwrap_or(f32::MIN as f64), max.map(|m| m.0 as f64).unwrap_or(f32::MAX as f64)),
         RType::Double { min, max } => (min.map(|m| m.0).unwrap_or(f64::MIN), max.map(|m| m.0).unwrap_or(f64::MAX)),
         RType::Int { min, max } => (*min as f64, *max as f64),
-        RType::Scaled { min, max, scale, offset } => (*min as f64 * scale.0 + offset.0, *max as f64 * scale.0 + offset.0),
+        RType::Scaled { min, max, scale, offset } => {
+            // the real range of the type; a negative scale reverses the order of the ends
+            let a = *min as f64 * scale.0 + offset.0;
+            let b = *max as f64 * scale.0 + offset.0;
+            (a.min(b), a.max(b))
+        }
     }
 }
 
